@@ -17,7 +17,7 @@ NEEDS = ["harness", "cli", "shim"]
 RULE = ("files per format (vcf, vcf.gz, bgzf bcf, raw bcf; 0.4-3 KB; npy and text spectra): quick 1 / thorough 6 per shard-format; for EACH file the first "
         "chunk length takes every value 1..len (exhaustive) x rest {all at once, random 1-64, 1 byte}, and each first-chunk length once more with the reader builder's options given explicitly (compression given + format detected / compression detected + format given / both given); a read fault (kinds Other, BrokenPipe, "
         "ConnectionReset; the reader then keeps failing / reports end of input / carries on) at every offset 0..len-1 (L) / a strided subset (S); writers accepting 1-7 bytes per call and failing at every offset; `-o FILE` over a path that is absent / holds a longer earlier result / longer garbage leaves exactly the bytes a pipe receives. "
-        "Baseline = the all-at-once result. A fault only obliges failure when the adapter recorded that it was DELIVERED. "
+        "Baseline = the all-at-once result. Two INVALID call sets per vcf / vcf.gz shard (an empty line between records) under every first-chunk length: the same verdict as when delivered at once. A fault only obliges failure when the adapter recorded that it was DELIVERED. "
         "Non-trivial: any schedule with first chunk < len, any delivered fault; distinct = (file digest, schedule/fault).")
 ASSUMPTIONS = ["UnexpectedEof / Interrupted are not injected: std and noodles legitimately treat them as end-of-stream / retry",
                "the shim's logged read sizes are what the program saw (checked against strace once in the self-test)"]
@@ -26,7 +26,7 @@ FLOORS = {"quick": {"evaluations": 20000, "distinct_nontrivial": 15000, "counts"
           "thorough": {"evaluations": 300000, "distinct_nontrivial": 200000, "counts": {"L_chunk_schedules": 100000, "L_read_faults": 80000, "L_write_plans": 10000, "S_runs": 8000}}}
 NSHARD = 32
 FORMATS = ["vcf", "vcf.gz", "bcf", "rawbcf"]
-KINDS = ["Other", "BrokenPipe", "ConnectionReset"]
+KINDS = ["Other", "BrokenPipe", "ConnectionReset", "UnexpectedEof", "TimedOut"]
 MODES = ["sticky", "once-eof", "once-continue"]
 
 
@@ -84,7 +84,7 @@ def check_L_create(S, p):
                 reqs.append(E.l2_request(data, smap, threads=threads, chunks=[first], rest=rng.choice([1, 2, 3, 7]), compression=comp_o, format=fmt_o))
             meta.append(("chunk", (first, "options compression=%s format=%s" % (comp_o or "auto", fmt_o or "auto"))))
         for off in range(n):
-            kind = KINDS[off % 3]
+            kind = KINDS[off % len(KINDS)]
             for mode in MODES:
                 reqs.append(E.l2_request(data, smap, threads=threads, fail_at=off, fail_kind=kind, fail_mode=mode, chunks=[rng.randint(1, 97) for _ in range(8)], rest=rng.choice([1, 13, 4096])))
                 meta.append(("fault", (off, kind, mode)))
@@ -135,6 +135,56 @@ def check_L_create(S, p):
         if fi == 0 and p["i"] < 4:
             S.sample({"level": "L", "format": fmt, "bytes": n, "threads": threads, "schedules": "first chunk 1..%d x {all, rand, one}" % n,
                       "baseline_sites": base.get("sites"), "example_io_record": res[1].get("io")})
+
+
+def check_L_malformed(S, p):
+    """A call set that is NOT valid (an empty line between two records; a record cut short) under every chunk schedule: whatever the
+    verdict on the whole stream is - an error - it is the verdict under every way of delivering the bytes, never 'success with the
+    records before the flaw' for some of them."""
+    if p["fmt"] not in ("vcf", "vcf.gz"):
+        return
+    rng = rng_for(S.seed, "c18", p["name"], "malformed")
+    cs = small_callset(rng)
+    lines = cs.to_vcf().split(b"\n")[:-1]
+    nh = len([l for l in lines if l.startswith(b"#")])
+    k = nh + rng.randint(1, max(1, len(lines) - nh - 1))
+    variants = {"empty line between records": b"\n".join(lines[:k]) + b"\n\n" + b"\n".join(lines[k:]) + b"\n",
+                "two empty lines before the last record": b"\n".join(lines[:-1]) + b"\n\n\n" + lines[-1] + b"\n"}
+    for vname, text in variants.items():
+        flaw = text.index(b"\n\n") + 2
+        if p["fmt"] == "vcf":
+            data = text
+        else:
+            data = vcfgen.bgzf(text, [flaw] if rng.random() < 0.7 else [flaw - 1, flaw + 3])       # a block ends right behind the empty line
+        n = len(data)
+        # the same text in other packagings: plain, one BGZF block, a block ending right behind / inside / before the flaw
+        others = [("plain text", text), ("one BGZF block", vcfgen.bgzf(text)), ("BGZF block ending right behind the flaw", vcfgen.bgzf(text, [flaw])),
+                  ("BGZF block ending inside the flaw", vcfgen.bgzf(text, [flaw - 1])), ("BGZF blocks per line", vcfgen.bgzf(text, vcfgen.record_cuts_vcf(text)))]
+        ores = harness.run_all([E.l2_request(d_, None) for _, d_ in others])
+        okeys = {nm: baseline_key(r_) for (nm, _), r_ in zip(others, ores)}
+        S.count("L_malformed_packagings", len(others))
+        if len(set(okeys.values())) > 1:
+            S.viol("C18:packaging:malformed", "[L call set with %s] the verdict depends on how the same text is packaged: %r" % (
+                vname, {nm: ("accepted" if k_[0] == "ok" else "error") for nm, k_ in okeys.items()}), {"level": "L", "text": text.decode("latin1")[:4000], "flaw": vname})
+        reqs = [E.l2_request(data, None)]
+        for first in range(1, n + 1):
+            reqs.append(E.l2_request(data, None, chunks=[first]))
+            reqs.append(E.l2_request(data, None, chunks=[first], rest=rng.choice([1, 2, 5, 64])))
+        res = harness.run_all(reqs, timeout=1200)
+        bkey = baseline_key(res[0])
+        S.count("L_malformed_files")
+        wit0 = {"level": "L", "format": p["fmt"], "data_hex": data.hex(), "flaw": vname}
+        for j, r in enumerate(res[1:]):
+            S.count("L_chunk_schedules")
+            S.count("L_malformed_schedules")
+            first = 1 + j // 2
+            if "panic" in r or r.get("died"):
+                S.viol("C18:panic", "[L %s with %s, first chunk %d] panicked: %s" % (p["fmt"], vname, first, str(r)[:300]), dict(wit0, first=first))
+            elif baseline_key(r) != bkey:
+                S.viol("C18:chunk:malformed:%s" % p["fmt"], "[L %s with %s (flaw at byte %d of %d), first chunk %d%s] %s, but delivered at once: %s" % (
+                    p["fmt"], vname, flaw, n, first, "" if j % 2 == 0 else ", short later chunks",
+                    ("accepted with %s sites" % r.get("sites")) if "scs" in r else "error %r" % r.get("err"), "accepted" if bkey[0] == "ok" else "error"), dict(wit0, first=first))
+            S.case(key="%s|m|%d|%d" % (digest(data), first, j % 2), nontrivial=True)
 
 
 def check_L_big(S, p):
@@ -198,8 +248,14 @@ def check_L_npy(S, p):
             reqs.append(r)
             meta.append(("chunk", (first, rest)))
     for off in range(n):
-        reqs.append({"op": "read_npy", "data": data.hex(), "fail_at": off, "fail_kind": KINDS[off % 3], "fail_mode": MODES[:2][off % 2], "rest": [1, 5, 64, 100000][off % 4]})
+        reqs.append({"op": "read_npy", "data": data.hex(), "fail_at": off, "fail_kind": KINDS[off % len(KINDS)], "fail_mode": MODES[:2][off % 2], "rest": [1, 5, 64, 100000][off % 4]})
         meta.append(("fault", off))
+    # a reader that FAILS exactly where the data ends (a decompressor that finds its trailer missing, a socket reset at the last byte):
+    # the failure is a failure whatever its kind - also the kind that an ordinary end of input would have (UnexpectedEof)
+    for kind_ in ("UnexpectedEof", "Other", "ConnectionReset", "TimedOut"):
+        for off in (n, n - 1, n - 4):
+            reqs.append({"op": "read_npy", "data": data.hex(), "fail_at": off, "fail_kind": kind_, "fail_mode": "sticky", "rest": [3, 8, 100000][(off + len(kind_)) % 3]})
+            meta.append(("fault", off))
     res = harness.run_all(reqs)
     base = res[0]
     wit0 = {"level": "L", "format": "npy", "data_hex": data.hex()}
@@ -514,6 +570,7 @@ def shard(S, p):
         S.inconc("witness carries the bytes and the schedule for manual replay")
         return
     check_L_create(S, p)
+    check_L_malformed(S, p)
     check_L_big(S, p)
     check_L_npy(S, p)
     check_L_write(S, p)
